@@ -497,6 +497,14 @@ func (m *RoundMonitor) OnBlock(h *History, b *Block, txs []*GenTx, ref *BlockRes
 		}
 		for _, ec := range xc.Commits {
 			m.Accepted++
+			// A commitment counts only if its stated node signed it (with or without a result).
+			if err := ec.Verify(rtID); err != nil {
+				kind := "with-result"
+				if ec.Header.Failure != commitment.FailureNone {
+					kind = "failure-indicating"
+				}
+				viol("commitment-with-invalid-signature-accepted/"+kind, fmt.Sprintf("transaction %d was accepted although the %s commitment it carries in the name of node %s for round %d does not verify: %v", i, kind, ec.NodeID, ec.Header.Header.Round, err), nil)
+			}
 			v := acceptedVote{Node: ec.NodeID, Scheduler: ec.Header.SchedulerID, Header: ec.Header.Header, Own: ec.NodeID == ec.Header.SchedulerID, Height: b.Height}
 			if ec.Header.Failure == commitment.FailureNone {
 				hv := hash.NewFrom(&ec.Header.Header)
